@@ -341,8 +341,10 @@ class Interp:
             if isinstance(fn, types.MethodType):
                 return con.apply(self, (fn.__self__,) + tuple(args), kwargs)
             return con.apply(self, tuple(args), kwargs)
-        if isinstance(fn, functools._lru_cache_wrapper) and (contains_sym(args) or contains_sym(kwargs)):
-            fn = fn.__wrapped__        # a cache in front of a pure function does not change what it returns
+        if isinstance(fn, functools._lru_cache_wrapper) and (contains_sym(args) or contains_sym(kwargs) or self.call_contracts or self.is_repo_function(fn.__wrapped__)):
+            # a cache in front of a pure function does not change what it returns; going through the wrapped function keeps the call inside the
+            # interpreter (stand-ins and callee contracts apply) and keeps symbolic values out of the real cache
+            fn = fn.__wrapped__
         stub = self.stubs.get(id(fn))
         if stub is None and isinstance(fn, types.BuiltinMethodType) is False:
             stub = self.stubs.get(id(getattr(fn, "__func__", None))) if hasattr(fn, "__func__") else None
@@ -710,6 +712,60 @@ class Interp:
                 del base[idx]
             else:
                 raise Unsupported("del target")
+
+    def s_Match(self, st, frame):
+        """`match` as the if/elif chain it abbreviates, for the patterns that need no protocol: literals and constants (==, `is` for None/True/False),
+        captures and the wildcard, or-patterns, class patterns without arguments (isinstance), sequence patterns of fixed length, `as`, guards.
+        Mapping patterns, star patterns and class patterns with arguments are outside the subset."""
+        subject = self.eval(st.subject, frame)
+        for case in st.cases:
+            binds = {}
+            if self.match_pattern(case.pattern, subject, frame, binds):
+                for k, val in binds.items():
+                    frame.locals[k] = val
+                if case.guard is None or self.truth(self.eval(case.guard, frame)):
+                    return self.exec_block(case.body, frame)
+
+    def match_pattern(self, pat, subject, frame, binds):
+        if isinstance(pat, ast.MatchValue):
+            return self.truth(self.compare(ast.Eq(), subject, self.eval(pat.value, frame)))
+        if isinstance(pat, ast.MatchSingleton):
+            return subject is pat.value
+        if isinstance(pat, ast.MatchAs):
+            if pat.pattern is not None and not self.match_pattern(pat.pattern, subject, frame, binds):
+                return False
+            if pat.name is not None:
+                binds[pat.name] = subject
+            return True
+        if isinstance(pat, ast.MatchOr):
+            for alt in pat.patterns:
+                b = {}
+                if self.match_pattern(alt, subject, frame, b):
+                    binds.update(b)
+                    return True
+            return False
+        if isinstance(pat, ast.MatchClass) and not pat.patterns and not pat.kwd_patterns:
+            from .stubs import b_isinstance
+            return self.truth(b_isinstance(self, subject, self.eval(pat.cls, frame)))
+        if isinstance(pat, ast.MatchSequence) and not any(isinstance(x, ast.MatchStar) for x in pat.patterns):
+            if isinstance(subject, (str, bytes, dict, set, frozenset, SymDict)) or (isinstance(subject, Sym)):
+                return False                     # strings and mappings are no sequences for `match`
+            if isinstance(subject, SymSeq) and not subject.concrete_len():
+                if not self.truth(subject.sym_len() == len(pat.patterns)):
+                    return False
+                items = [subject.at(i) for i in range(len(pat.patterns))]
+            elif isinstance(subject, (list, tuple, SymSeq)):
+                items = list(subject)
+                if len(items) != len(pat.patterns):
+                    return False
+            elif isinstance(subject, S.ManyParts):
+                if len(pat.patterns) <= 2:
+                    return False                 # at least three parts
+                raise Unsupported("match: three or more parts of a symbolic split")
+            else:
+                raise Unsupported("match: sequence pattern on %s" % type(subject).__name__)
+            return all(self.match_pattern(p, x, frame, binds) for p, x in zip(pat.patterns, items))
+        raise Unsupported("match pattern %s" % type(pat).__name__)
 
     def s_Global(self, st, frame):
         raise Unsupported("global statement")
